@@ -383,6 +383,12 @@ def a_constrained(a: Annotated[int, schema(min=0, max=3)]) -> int: CALLS.append(
 class WithListDefault:
     items: List[int] = field(default_factory=list)
     n: Optional[int] = None
+@dataclass
+class Ring:
+    radius: float = 1          # an int is a valid float (and deserialize accepts it)
+    scale: Optional[float] = 2
+    ratio: float = 0.5
+def in_numeric_defaults(arg: Ring) -> float: CALLS.append(("in_numeric_defaults", arg)); return arg.radius * (arg.scale or 0) + arg.ratio
 def in_list_default(arg: WithListDefault) -> int: CALLS.append(("in_list_default", arg)); return len(arg.items)
 
 @interface
@@ -483,7 +489,7 @@ def world_checks(st: infra.Stats):
     def viol(kind, what, **sig):
         st.violation({"label": "world", "signature": dict({"kind": kind}, **sig), "what": what[:500]})
 
-    ops = ["a_required", "a_default", "a_none", "a_opt_default", "a_opt_list", "a_wide_default", "a_info_first", "a_info_mid", "a_unser", "a_obj_default", "a_list_default", "a_undefined", "a_enum_default", "a_two", "a_constrained", "in_list_default", "by_id"]
+    ops = ["a_required", "a_default", "a_none", "a_opt_default", "a_opt_list", "a_wide_default", "a_info_first", "a_info_mid", "a_unser", "a_obj_default", "a_list_default", "a_undefined", "a_enum_default", "a_two", "a_constrained", "in_list_default", "in_numeric_defaults", "by_id"]
     built = {}
     for name in ops:
         st.case("world", "signature", name)
@@ -511,6 +517,7 @@ def world_checks(st: infra.Stats):
         "a_two": {"a": "Int!", "b": "String!"},
         "a_constrained": {"a": "Int!"},
         "in_list_default": {"arg": "WithListDefaultInput!"},
+        "in_numeric_defaults": {"arg": "RingInput!"},
         "by_id": {"id": "ID!"},
     }
     for name, s in built.items():
@@ -518,11 +525,20 @@ def world_checks(st: infra.Stats):
         got = {n: str(a.type) for n, a in s.query_type.fields[qn].args.items()}
         if got != expect_args[name]:
             viol("world_argument_types", f"{name}: arguments {got} expected {expect_args[name]}", op=name)
+    # input object fields with numeric defaults written as ints
+    if "in_numeric_defaults" in built:
+        fields = built["in_numeric_defaults"].type_map["RingInput"].fields
+        got = {n: (str(f.type), f.default_value) for n, f in fields.items()}
+        exp = {"radius": ("Float!", 1), "scale": ("Float", 2), "ratio": ("Float!", 0.5)}
+        if got != exp:
+            viol("world_input_defaults", f"RingInput fields {got} expected {exp}", op="in_numeric_defaults")
     # execution with / without arguments
     runs = [
         ("a_required", "{ aRequired(a: 2) }", {"aRequired": 2}, ("a_required", 2)),
         ("a_default", "{ aDefault }", {"aDefault": 3}, ("a_default", 3)),
         ("a_default", "{ aDefault(a: 4) }", {"aDefault": 4}, ("a_default", 4)),
+        ("in_numeric_defaults", "{ inNumericDefaults(arg: {}) }", {"inNumericDefaults": 2.5}, ("in_numeric_defaults", m.Ring(1, 2, 0.5))),
+        ("in_numeric_defaults", "{ inNumericDefaults(arg: {radius: 2, scale: null}) }", {"inNumericDefaults": 0.5}, ("in_numeric_defaults", m.Ring(2, None, 0.5))),
         ("a_none", "{ aNone }", {"aNone": None}, ("a_none", None)),
         ("a_none", "{ aNone(a: null) }", {"aNone": None}, ("a_none", None)),
         ("a_none", "{ aNone(a: 2) }", {"aNone": 2}, ("a_none", 2)),
